@@ -346,7 +346,31 @@ class BodyGen:
         return "\n".join([hdr] + ["    " + l for l in body]) + "\n"
 
 
-def gen_module(rng: random.Random, n_funcs=6, hostile=0.04):
+def gen_class(g: BodyGen, name):
+    """A class with an __init__ and a static method whose bodies come from the same generator."""
+    r = g.r
+    g.locals = []
+    g.params = ["self", "a", "b"]
+    init = []
+    for _ in range(r.randint(1, 3)):
+        init.extend(g.stmt(0))
+    g.locals = []
+    g.params = ["v", "w"]
+    sm = []
+    for _ in range(r.randint(1, 3)):
+        sm.extend(g.stmt(0))
+    lines = [f"class {name}:", f"    attr_{name} = 1", "    def __init__(self, a, b=0):"] + ["        " + l for l in init]
+    lines += ["    @staticmethod", "    def sm(v, w):"] + ["        " + l for l in sm]
+    return "\n".join(lines) + "\n"
+
+
+def gen_lambda(g: BodyGen, name):
+    g.locals = []
+    g.params = ["a", "b"]
+    return f"{name} = lambda a, b: {g.expr(1)}\n"
+
+
+def gen_module(rng: random.Random, n_funcs=6, hostile=0.04, with_classes=False):
     """A module: preamble + n functions. Returns (source, [function names])."""
     g = BodyGen(rng, hostile=hostile)
     names, parts = [], [PREAMBLE]
@@ -361,4 +385,16 @@ def gen_module(rng: random.Random, n_funcs=6, hostile=0.04):
             parts.append(src)
             names.append(name)
             break
+    if with_classes:
+        for i in range(2):
+            for _ in range(20):
+                src = gen_class(g, f"Gen{i}") if i == 0 else gen_lambda(g, f"genlam{i}")
+                if "await " in src or "yield" in src or "async " in src:
+                    continue
+                try:
+                    compile(src, '<gen>', 'exec')
+                except SyntaxError:
+                    continue
+                parts.append(src)
+                break
     return "\n".join(parts), names
